@@ -33,7 +33,7 @@ CLAIMED = {
     "C08": ("instrumented RISC-V emulator (64-bit LW/SW, poison, bounds, wild jumps) on the printed pseudo-assembly vs AxCut positional reference machine",
             "Held on K print-free programs with at most 14 live variables.",
             "Trusted: AxCut machine and the RISC-V emulator.", "6/C08"),
-    "C11": ("exhaustive enumeration of substitution configurations (all maps new(m)->old(n), all kind assignments, window offsets across the register/spill boundary, three backends): the code the real Substitute::code_statement emits is emulated from a state of unique sentinels and the final registers, spill slots, reference counts and free list are compared with the simultaneous-assignment specification; plus random larger maps with shared blocks",
+    "C11": ("exhaustive enumeration of substitution configurations (all maps new(m)->old(n), all kind assignments, window offsets across the register/spill boundary, three backends; then all maps one size further with uniform kinds): the code the real Substitute::code_statement emits is emulated from a state of unique sentinels and the final registers, spill slots, reference counts and free list are compared with the simultaneous-assignment specification; plus random larger maps with shared blocks",
             "Exhaustive for m,n <= 4 (quick) / <= 5 (thorough) per backend (evidence: exhaustive=true when the enumeration completed); larger maps sampled.",
             "Trusted: the three emulators; dead temporaries beyond the new environment are not constrained.", "6/C11"),
     "C12": ("structural monitors (type/scope checkers for Core, uniquified Core, focused Core, AxCut, linear AxCut) on every value the real stages produce; panics caught around every stage and all three code generators; inputs: generated programs, corpus, accepted survivors of token mutations and of the single structured edits of C15 (scope escapes first)",
@@ -51,7 +51,7 @@ CLAIMED = {
     "C18": ("fault-injection style input fuzzing: token/character mutations, nesting, special programs, valid programs over non-regular / mutually recursive types and their mutations, valid programs whose identifiers are consistently renamed to extreme names (huge numeric suffixes, leading zeros, underscores only, thousands of characters), repository corpus mutations; panics caught in-process (8 MiB stack like the real tool), aborts/timeouts attributed through a current-case file, real scc binary on a sample",
             "Held on K inputs (valid UTF-8); termination judged as bounded progress (60 s per input).",
             "Trusted: catch_unwind + process-level attribution; later stages judged only for accepted programs with a valid main.", "6/C18"),
-    "C19": ("size monitor on 20 hand-written scalable program families and on randomly composed periodic shapes (12 branching forms x 25 ways of attaching the rest, open and closed mains, main or helper-definition bodies; all 300 single-link shapes, then thousands of random ones), source linear in k: every stage output may grow at most 12x when k doubles (k = 3..16)",
+    "C19": ("size monitor on 20 hand-written scalable program families and on randomly composed periodic shapes (12 branching forms x 27 ways of attaching the rest, open and closed mains, main or helper-definition bodies; all 324 single-link shapes, then thousands of random ones), source linear in k: every stage output may grow at most 12x when k doubles (k = 3..16)",
             "Held on the listed families and the random shapes judged (count in the evidence) up to k = 16; nothing is claimed for other program shapes.",
             "Trusted: printed size / instruction count as the size measure.", "6/C19"),
     "C20": ("clang ASan+UBSan build of io.c driven with boundary and random values; native x86-64 programs for 0..5 parameters x 7 shapes of main's body (conditional, match, call, label, closure between the prints and the result) incl. wrong argument counts; AArch64 entry shuffle on the emulator for 0..7 parameters x the same shapes; print-placement matrix (0..23 live variables x kinds x printed position x boundary values) on the x86-64 and AArch64 emulators vs the AxCut positional machine",
@@ -69,7 +69,7 @@ CLAIMED = {
     "C10": ("footprint monitor over consecutive statement-boundary markers of emulated executions (fresh memory only when both free lists are empty; frontier <= peak reachable + c)",
             "Held on K executions / N marker pairs; the unbounded 'space independent of repetitions' is judged only as the bounded statement within the run lengths executed.",
             "Trusted: emulators (all three backends) + monitor.", "6/C10"),
-    "C13": ("ABI monitor in the emulator's external-call model: alignment at calls, invalidation of all caller-saved state, callee-saved registers / stack pointer / return address at the final return",
+    "C13": ("ABI monitor in the emulator's external-call model: alignment at calls, invalidation of all caller-saved state, callee-saved registers / stack pointer / return address at the final return; heap/free registers unchanged across a print statement; a variable location that changed across a print statement together with a trace that differs from the reference machine",
             "Held on K executions with N external calls checked.",
             "Trusted: emulators' models of the System V (x86-64) and AAPCS64 (AArch64) calling conventions; RISC-V has no calls.", "6/C13"),
 }
